@@ -4,6 +4,7 @@
 
 mod c02;
 mod c09;
+mod c11;
 mod prog;
 mod rng;
 
@@ -48,6 +49,8 @@ fn main() {
     match cmd {
         "compile" => c02::main(&args),
         "roles" => c09::main(&args),
+        "alu" => c11::main(&args),
+        "alusched" => c11::sched_main(&args),
         "shrink" => c02::shrink_main(&args),
         _ => {
             eprintln!("unknown subcommand {cmd}");
